@@ -258,6 +258,25 @@ theorem ansi_whole_chunk (segs : List Seg) :
 theorem holdback_pinned : Scrapli.Gen.Chan.incompletePatternIsPinned = true ∧
     Scrapli.Gen.Chan.heldMaxSource = some heldMax := by decide
 
+/-- **nothing of an earlier session is held back in a new one**: `open()` on the same channel object -- after `close()`, or after a
+    timeout handler closed the transport only -- starts with an empty hold-back, whatever the old session left (the fact is measured
+    on the live `Channel` / `AsyncChannel` each run) -/
+theorem reopen_fresh (w : Wire) (avail : Bytes) (cuts : List Nat) : (w.reopen avail cuts).held = [] := by
+  have h : Scrapli.Gen.Chan.openDropsHeld = some true := by decide
+  simp [Wire.reopen, h]
+
+/-- hence `get_prompt` in the re-opened session is exact for every segmentation, whatever state (`held`, unread bytes, cut list)
+    the previous session was abandoned in -/
+theorem getPrompt_after_reopen_exact {P : Bytes → Bool} {cfg : Cfg} {dv : LineDev} (hf : Fits P cfg dv)
+    (hfirst : ∀ x L, (splitNL x).find? P = some L → ∃ m, cfg.prompt.first x = some m ∧ strip m = strip L)
+    (hout : dv.out [] = [])
+    (old : Wire) (avail : Bytes) (cuts : List Nat) (hres : ∀ x ∈ avail, isHws x = true) :
+    ∃ w', getPrompt cfg dv.onWrite (old.reopen avail cuts, []) = some (strip dv.prompt, (w', [])) ∧
+      w'.writes = [[NL]] ∧ w'.held = [] := by
+  obtain ⟨w', h1, h2, _, h4⟩ := getPrompt_exact hf hfirst hout (old.reopen avail cuts) (by simpa [Wire.reopen] using hres)
+    (reopen_fresh old avail cuts)
+  exact ⟨w', h1, by simpa [Wire.reopen] using h2, h4⟩
+
 /-- a sequence the hold-back can carry: no introducer byte after the first one, at most `heldMax` bytes -/
 def Seq.Tame (s : Seq) : Prop :=
   (∀ x ∈ s.bytes.tail, isAnsiStart x = false) ∧ s.bytes.length ≤ heldMax
